@@ -435,6 +435,13 @@ pub fn eval(c: &Case) -> (Vec<Finding>, Vec<String>) {
 pub struct Pair {
     pub first: (Op, bool, u8),
     pub second: (Op, bool, u8),
+    /// verification capability (0 None, 1 Some(false), 2 Some(true)) the user-validation method
+    /// reports during the first and during the second ceremony
+    #[serde(default = "caps_default")]
+    pub caps: (u8, u8),
+}
+fn caps_default() -> (u8, u8) {
+    (2, 2)
 }
 
 /// user validation whose outcome is scripted per call
@@ -442,6 +449,8 @@ pub struct Pair {
 struct SeqUv {
     outcomes: Arc<std::sync::Mutex<Vec<UvOutcome>>>,
     log: Log,
+    /// what is_verification_enabled answers right now (changed by the harness between ceremonies)
+    cap: Arc<std::sync::Mutex<Option<bool>>>,
 }
 #[async_trait::async_trait]
 impl passkey_authenticator::UserValidationMethod for SeqUv {
@@ -459,7 +468,7 @@ impl passkey_authenticator::UserValidationMethod for SeqUv {
         true
     }
     fn is_verification_enabled(&self) -> Option<bool> {
-        Some(true)
+        *self.cap.lock().unwrap()
     }
 }
 
@@ -475,7 +484,9 @@ pub fn pairs() -> Vec<Pair> {
     let mut v = vec![];
     for a in &singles {
         for b in &singles {
-            v.push(Pair { first: *a, second: *b });
+            for caps in [(2u8, 2u8), (2, 0), (2, 1), (0, 2), (1, 2)] {
+                v.push(Pair { first: *a, second: *b, caps });
+            }
         }
     }
     v
@@ -488,19 +499,25 @@ pub fn eval_pair(p: &Pair) -> (Vec<Finding>, String) {
     let shared = Shared::new(store);
     let log = Log::new();
     let outcomes = Arc::new(std::sync::Mutex::new(vec![outcome_of(p.first.2), outcome_of(p.second.2), outcome_of(0)]));
-    let uv = SeqUv { outcomes, log: log.clone() };
+    let cap = Arc::new(std::sync::Mutex::new(cap_of(p.caps.0)));
+    let uv = SeqUv { outcomes: outcomes.clone(), log: log.clone(), cap: cap.clone() };
     let mut auth = Authenticator::new(Aaguid::new_empty(), Logging { inner: shared.clone(), log: log.clone() }, uv);
     auth.set_make_credentials_with_signature_counter(true);
     let mut class = String::new();
     for (k, (op, uvreq, outcome)) in [p.first, p.second].into_iter().enumerate() {
         let before = shared.recs();
         let _ = log.take();
+        let cap_now = if k == 0 { p.caps.0 } else { p.caps.1 };
+        *cap.lock().unwrap() = cap_of(cap_now);
+        // this ceremony's scripted answer (an earlier ceremony may have been refused before its
+        // user step and left its own answer unused)
+        *outcomes.lock().unwrap() = vec![outcome_of(outcome), outcome_of(0)];
         let r = par::catch(|| match op {
             Op::Make => block_on(auth.make_credential(mc_request(RP, &[9, k as u8], None, false, true, uvreq, false, None))).map(|r| u8::from(r.auth_data.flags)).map_err(sc_byte),
             Op::Get => block_on(auth.get_assertion(ga_request(RP, None, false, true, uvreq, false, None))).map(|r| u8::from(r.auth_data.flags)).map_err(sc_byte),
         });
         let after = shared.recs();
-        let c = Case { op, rk: false, up: true, uv: uvreq, cap: 2, presence_cap: true, outcome, pin: false, arc_mutex: false, level: 0, uvreq: 0, ext: false, wire: 0, flip: false };
+        let c = Case { op, rk: false, up: true, uv: uvreq, cap: cap_now, presence_cap: true, outcome, pin: false, arc_mutex: false, level: 0, uvreq: 0, ext: false, wire: 0, flip: false };
         let ok = consent_ok(&c, true, uvreq);
         let checked = log.snapshot().iter().any(|e| matches!(e, Event::CheckUser { .. }));
         match r {
@@ -562,7 +579,7 @@ pub fn run(ctx: &Ctx) -> Result<Run, String> {
     }
     let mut run = Run::from_stats(
         "model_checking",
-        "complete product op x rk x up x uv x verification-capability x presence-capability (the configurations with presence capability off also use a store that answers 'nothing found' with Ok(empty) instead of an error) x validation-outcome(7) x pin-auth x store kind, each with 6 store contents incl. two simultaneously matching credentials (CTAP2 level) plus userVerification(4) x op x capability x outcome at client level; plus all ordered pairs of (operation, uv requested, validation outcome) ceremonies on ONE authenticator (consent must not carry over); a configuration is non-trivial when at least one of its ceremonies succeeded or was refused for a consent reason (0x27/0x2B)",
+        "complete product op x rk x up x uv x verification-capability x presence-capability (the configurations with presence capability off also use a store that answers 'nothing found' with Ok(empty) instead of an error) x validation-outcome(7) x pin-auth x store kind, each with 6 store contents incl. two simultaneously matching credentials (CTAP2 level) plus userVerification(4) x op x capability x outcome at client level; plus all ordered pairs of (operation, uv requested, validation outcome) ceremonies on ONE authenticator, with the verification capability staying or changing between the two (configured -> absent / unconfigured and back) (neither consent nor a capability seen earlier may carry over); a configuration is non-trivial when at least one of its ceremonies succeeded or was refused for a consent reason (0x27/0x2B)",
         true,
         stats,
     );
